@@ -11,6 +11,13 @@ class RenderError(Exception):
     pass
 
 
+def sfx(e):
+    """type suffix of a variable reference; none for records and extended declarations"""
+    if e["t"] == "U" or e.get("bare"):
+        return ""
+    return SUFFIX[e["t"]]
+
+
 def lit(t, v):
     if t == "$":
         s = bytes(v).decode("latin1")
@@ -63,9 +70,16 @@ def expr(e):
     if k == "lit":
         return lit(e["t"], e["v"])
     if k == "var":
-        return e["n"] + SUFFIX[e["t"]]
+        return e["n"] + sfx(e)
     if k == "idx":
-        return e["n"] + SUFFIX[e["t"]] + "(" + ", ".join(expr(x) for x in e["subs"]) + ")"
+        return e["n"] + sfx(e) + "(" + ", ".join(expr(x) for x in e["subs"]) + ")"
+    if k == "fld":
+        return expr(e["base"]) + "." + e["f"]
+    if k == "bound":
+        name = "LBOUND" if e["which"] == "l" else "UBOUND"
+        if e.get("nodim"):
+            return "%s(%s)" % (name, e["n"] + sfx(e))
+        return "%s(%s, %s)" % (name, e["n"] + sfx(e), expr(e["d"]))
     if k == "par":
         return "(" + expr(e["e"]) + ")"
     if k == "un":
@@ -233,7 +247,9 @@ def stmt(o, s, ind):
             arr = "(" + ", ".join(ds) + ")"
         else:
             arr = ""
-        if s.get("fix", 0) > 0:
+        if s["t"] == "U":
+            text += name + arr + " AS " + s["ty"]
+        elif s.get("fix", 0) > 0:
             text += name + arr + " AS STRING * " + (s.get("fixtext") or str(s["fix"]))
         elif s.get("extended"):
             text += name + arr + " AS " + TYPENAME[s["t"]]
@@ -270,9 +286,20 @@ def program(prog):
     o = Out()
     for d in prog.get("pre", []):
         o.emit(d)
+    for td in prog.get("types", []):
+        o.emit("TYPE " + td["n"])
+        for fd in td["fields"]:
+            if fd["t"] == "U":
+                o.emit("  " + fd["n"] + " AS " + fd["ty"])
+            elif fd["t"] == "$":
+                o.emit("  " + fd["n"] + " AS STRING * %d" % fd["fix"])
+            else:
+                o.emit("  " + fd["n"] + " AS " + TYPENAME[fd["t"]])
+        o.emit("END TYPE")
     body(o, prog["main"], 0)
     for sub in prog.get("subs", []):
-        params = ", ".join(p["n"] + SUFFIX[p["t"]] for p in sub["params"])
+        params = ", ".join((p["n"] + " AS " + p["ty"]) if p["t"] == "U" else (p["n"] + SUFFIX[p["t"]])
+                           for p in sub["params"])
         head = ("FUNCTION " + sub["n"] + SUFFIX[sub["t"]]) if sub["kind"] == "fun" else ("SUB " + sub["n"])
         if params:
             head += "(" + params + ")"
